@@ -17,7 +17,7 @@ Log2c(x) == IF x <= 1 THEN 0 ELSE 1 + Log2c((x + 1) \div 2)      \* ceil(log2 x)
 Base(op, n, b, vc, rs, as, bs) ==
   [op |-> op, n |-> n, rs |-> rs, as |-> as, bs |-> bs, step |-> 1, off |-> 0, scale |-> 0,
    rows |-> 1, cin |-> 1, cout |-> 1, ms |-> 1, maskt |-> 0, same |-> 0, vmax |-> 2 ^ (b - 1), vclass |-> vc,
-   chk |-> "agree", b |-> b]
+   chk |-> "agree", b |-> b, pa |-> as, pb |-> bs]
 
 InDomain(n, b, terms) == Log2c(n) + 2 * b + Log2c(terms) <= DomainBits
 
